@@ -382,6 +382,50 @@ def r_stats_at(rep, prog):
               "the per-tree query computes free_trees as %s" % (ft,), b.span)
 
 
+def r_stats_exact(rep, prog):
+    """Lower::stats (the exact counts): every entry of every table is visited; free_frames sums the counters, a huge frame counts
+    as free iff its counter is HUGE_FRAMES, a tree iff the sum over its table is TREE_FRAMES."""
+    from props.c10 import loop_info, iter_loop_header, exits_only_by_exhaustion
+    from props.c14 import accumulations
+    rule = "R-STATS-AT"
+    fn = "llfree::lower::Lower::stats"
+    b = lib.need_body(prog, fn)
+    rep.saw(fn)
+    tm = T.Terms(b, prog)
+    HF = prog.crate("llfree").const("llfree::HUGE_FRAMES")
+    TF = prog.crate("llfree").const("llfree::TREE_FRAMES")
+    loops = loop_info(b)
+    allb = set()
+    for h, blocks, exits in loops:
+        ok, why = exits_only_by_exhaustion(b, tm, h, blocks, exits)
+        rep.check(ok, rule, "stats|exhaustive|bb", "visits every table / entry", "Lower::stats: " + why, b.term(h)["span"])
+        allb |= blocks
+    rep.check(len(loops) == 2, rule, "stats|loops", "tables x entries", "expected two nested loops in Lower::stats, found %d" % len(loops), b.span)
+    acc = {}
+    for bi, si, names, amt, span, p in accumulations(b, tm, allb):
+        acc.setdefault(names[-1], []).append((bi, amt, span))
+
+    def single(name):
+        v = acc.get(name, [])
+        return v[0] if len(v) == 1 else None
+    ENTRY = lambda a: a[0] == "call" and a[1] == HE + "free"
+    ff = single("free_frames")
+    good = ff is not None and ff[1] is not None and ff[1][1] == 0 and len(ff[1][0]) == 1 and ENTRY(list(ff[1][0].keys())[0]) and list(ff[1][0].values())[0] == 1
+    rep.check(good, rule, "stats|free_frames", "free_frames += entry.free()", "Lower::stats free_frames: %s" % (ff and ff[1],), b.span)
+    fh = single("free_huge")
+    good = False
+    if fh is not None and fh[1] is not None and fh[1][1] == 0 and len(fh[1][0]) == 1:
+        (a, v), = fh[1][0].items()
+        good = v == 1 and a[0] == "bin" and a[1] == "Eq" and ("c", HF) in (a[2], a[3]) and (ENTRY(a[2]) or ENTRY(a[3]))
+    rep.check(good, rule, "stats|free_huge", "free_huge += (entry.free() == HUGE_FRAMES)", "Lower::stats free_huge: %s" % (fh and fh[1],), b.span)
+    ft = single("free_trees")
+    good = False
+    if ft is not None and ft[1] is not None and ft[1][1] == 0 and len(ft[1][0]) == 1:
+        (a, v), = ft[1][0].items()
+        good = v == 1 and a[0] == "bin" and a[1] == "Eq" and ("c", TF) in (a[2], a[3])
+    rep.check(good, rule, "stats|free_trees", "free_trees += (sum over the table == TREE_FRAMES)", "Lower::stats free_trees: %s" % (ft and ft[1],), b.span)
+
+
 def run(rep, programs):
     prog = programs["core"]
     rep.assume("the invariant G + L = B - offline holds initially (C06, not claimed)")
@@ -389,6 +433,7 @@ def run(rep, programs):
     r_balance(rep, prog)
     r_stats_merge(rep, prog)
     r_stats_at(rep, prog)
+    r_stats_exact(rep, prog)
     # the counter that is charged belongs to the tree the frame is taken from
     from props import c15
     c15.r_reserve_before_lower(rep, prog)
